@@ -132,6 +132,24 @@ theorem wsum_append {α} (f : α → Nat) (a b : List α) : wsum f (a ++ b) = ws
   | nil => simp [wsum]
   | cons x t ih => simp [wsum, ih]; omega
 
+theorem wsum_eraseIdx {α} (f : α → Nat) (l : List α) (j : Nat) (x : α) (h : l[j]? = some x) :
+    wsum f (l.eraseIdx j) + f x = wsum f l := by
+  induction l generalizing j with
+  | nil => simp at h
+  | cons a t ih =>
+    cases j with
+    | zero => simp at h; subst h; simp [wsum]; omega
+    | succ j => simp at h; have := ih j h; simp [wsum] at this ⊢; omega
+
+theorem length_eraseIdx' {α} (l : List α) (j : Nat) (x : α) (h : l[j]? = some x) :
+    (l.eraseIdx j).length + 1 = l.length := by
+  induction l generalizing j with
+  | nil => simp at h
+  | cons a t ih =>
+    cases j with
+    | zero => simp
+    | succ j => simp at h; have := ih j h; simp at this ⊢; omega
+
 theorem osum_set {α} (f : α → Nat) (ms : List (Option α)) (m : Nat) (old new : Option α)
     (h : ms[m]? = some old) : osum f (ms.set m new) + oval f old = osum f ms + oval f new := by
   induction ms generalizing m with
@@ -327,16 +345,17 @@ theorem inv_step (e : Env) (s : St) (op : Op) (hc : op.inContract = true) (h : I
       · exact Or.inl hh
       · exact Or.inr hh.2
     · exact h
-  | take m =>
+  | take m j =>
     simp only [step]
     split
-    · rename_i x q hm hq
+    · rename_i x hm hq
       obtain ⟨h1, h2, h3, h4, h5, h6, h7⟩ := h
       refine ⟨h1, h2, h3, h4, ?_, h6, h7⟩
       intro b y
       have := h5 b y
       have ho := osum_set (ind e b y) s.matchers m none (some x) hm
-      simp only [hq, wsum, oval] at this ho ⊢
+      have hq' := wsum_eraseIdx (ind e b y) s.queue j x hq
+      simp only [oval] at this ho ⊢
       omega
     · exact h
   | proc m =>
@@ -384,11 +403,11 @@ theorem enabled_resp (s : St) (w k : Nat) (h : enabled s (.resp w k) = true) :
   · rename_i lo hi hw; exact ⟨lo, hi, hw, by simpa using h⟩
   · simp at h
 
-theorem enabled_take (s : St) (m : Nat) (h : enabled s (.take m) = true) :
-    ∃ x q, s.matchers[m]? = some none ∧ s.queue = x :: q := by
+theorem enabled_take (s : St) (m j : Nat) (h : enabled s (.take m j) = true) :
+    ∃ x, s.matchers[m]? = some none ∧ s.queue[j]? = some x := by
   simp only [enabled] at h
   split at h
-  · rename_i x q hm hq; exact ⟨x, q, hm, hq⟩
+  · rename_i x hm hq; exact ⟨x, hm, hq⟩
   · simp at h
 
 theorem enabled_proc (s : St) (m : Nat) (h : enabled s (.proc m) = true) :
@@ -417,11 +436,11 @@ theorem step_disabled (e : Env) (s : St) (op : Op) (hc : op.inContract = true) (
   | stop => simp [enabled] at h
   | cancel => simp [enabled] at h
   | close => simp only [enabled] at h; simp [step, h]
-  | take m =>
+  | take m j =>
     simp only [enabled] at h
     simp only [step]
     split
-    · rename_i x q hm hq; simp [hm, hq] at h
+    · rename_i x hm hq; simp [hm, hq] at h
     · rfl
   | proc m =>
     simp only [enabled] at h
@@ -479,10 +498,11 @@ theorem step_measure (e : Env) (s : St) (op : Op) (hc : op.inContract = true) :
       refine ⟨?_, Nat.le_refl _⟩
       simp only [Bool.false_eq_true, if_false, if_true]
       omega
-    | take m =>
-      obtain ⟨x, q, hm, hq⟩ := enabled_take s m hen
+    | take m j =>
+      obtain ⟨x, hm, hq⟩ := enabled_take s m j hen
       have hb := busy_set s.matchers m none (some x) hm
-      simp only [step, hm, hq, scanMeasure, List.length_cons, Op.isProgress, Bool.and_self, if_true]
+      have hl := length_eraseIdx' s.queue j x hq
+      simp only [step, hm, hq, scanMeasure, Op.isProgress, Bool.and_self, if_true]
       refine ⟨?_, Nat.le_refl _⟩
       simp at hb
       omega
@@ -560,7 +580,7 @@ theorem progress (e : Env) (s : St) (h : Inv e s) (hq : quiescent s = false)
   · cases hqu : s.queue with
     | cons x q =>
       left
-      refine ⟨.take 0, rfl, rfl, ?_⟩
+      refine ⟨.take 0 0, rfl, rfl, ?_⟩
       simp [enabled, idle_head s.matchers hmi hm, hqu]
     | nil =>
       by_cases hwi : allIdle s.workers = true
